@@ -59,10 +59,13 @@ def unitQuantum (s : RegState) (u : Nat) : Option Rat :=
     | _, _ => none
 
 /-- `Unit.__eq__`: units of one type are equal when their scales are; a unit
-without scale equals itself only (since fix c2c5a04 also next to scaled units
-of its type; `Option` is kept for the callers: the result is never `none`) -/
+without scale, or of a type without reference unit, equals itself only (since
+fixes c2c5a04 / 4f15493; `Option` is kept for the callers: the result is never `none`) -/
 def unitEq (s : RegState) (u v : Nat) : Option Bool :=
   if s.unitCls u != s.unitCls v then some false
+  -- a type without reference unit: its units are not convertible, the factors
+  -- of their definitions refer to different base units (fix 4f15493)
+  else if (s.cls (s.unitCls u)).refUnit.isNone then some (u == v)
   else match (s.unit u).equiv, (s.unit v).equiv with
     | some a, some b => some (a == b)
     | _, _ => some (u == v)
